@@ -40,6 +40,16 @@ class HarnessError(Exception):
     pass
 
 
+def tmpdir():
+    """Per-run scratch directory (created on demand, removed by main() when the run ends)."""
+    base = os.environ.get('PV_TMP')
+    if not base:
+        base = os.path.join(ROOT, 'out', 'tmp', 'adhoc-%d' % os.getpid())
+    d = os.path.join(base, 'w%d' % os.getpid())
+    os.makedirs(d, exist_ok=True)
+    return d
+
+
 class CaseTimeout(BaseException):
     pass
 
@@ -343,6 +353,15 @@ def assert_repo(mod_penman):
 
 
 def main(pid, tier, vseed, replay=None):
+    import shutil
+    os.environ['PV_TMP'] = os.path.join(ROOT, 'out', 'tmp', '%s-%d' % (pid, os.getpid()))
+    try:
+        return _main(pid, tier, vseed, replay)
+    finally:
+        shutil.rmtree(os.environ['PV_TMP'], ignore_errors=True)
+
+
+def _main(pid, tier, vseed, replay=None):
     t0 = time.time()
     logging.disable(logging.CRITICAL)
     modname = 'pv.props.' + pid.lower()
